@@ -159,13 +159,13 @@ Proof.
   destruct e as [m o|m k d o|m k o|m o|j|j oc|j|j|j|j|j|j|j|j|t|t|jv sv]; cbn [outs_of];
     try reflexivity.
   - cbn [guards] in Hg. rewrite forallb_app in Hg. apply andb_true_iff in Hg. destruct Hg as [_ Hg].
-    cbn [forallb outs_guards] in Hg. rewrite holds_0 in Hg. apply andb_true_iff in Hg. tauto.
+    cbn [forallb outs_guards app] in Hg. rewrite holds_0 in Hg. apply andb_true_iff in Hg. tauto.
   - destruct k; cbn [guards] in Hg; rewrite forallb_app in Hg; apply andb_true_iff in Hg; destruct Hg as [_ Hg];
-      cbn [forallb outs_guards] in Hg; rewrite holds_0 in Hg; apply andb_true_iff in Hg; tauto.
+      cbn [forallb outs_guards app] in Hg; rewrite holds_0 in Hg; apply andb_true_iff in Hg; tauto.
   - destruct k; cbn [guards] in Hg; rewrite forallb_app in Hg; apply andb_true_iff in Hg; destruct Hg as [_ Hg];
-      cbn [forallb outs_guards] in Hg; rewrite holds_0 in Hg; apply andb_true_iff in Hg; tauto.
+      cbn [forallb outs_guards app] in Hg; rewrite holds_0 in Hg; apply andb_true_iff in Hg; tauto.
   - cbn [guards] in Hg. rewrite forallb_app in Hg. apply andb_true_iff in Hg. destruct Hg as [_ Hg].
-    cbn [forallb outs_guards] in Hg. rewrite holds_0 in Hg. apply andb_true_iff in Hg. tauto.
+    cbn [forallb outs_guards app] in Hg. rewrite holds_0 in Hg. apply andb_true_iff in Hg. tauto.
 Qed.
 
 (* the culprit guard: a critical scheduler re-raises the exception of a critical member *)
